@@ -44,8 +44,17 @@ fn stress_lexicon(rng: &mut Rng, lex: &mut Lexicon, nid: i64, size_class: u64) {
         // 127 entries per key is the format limit: more must be rejected by the compiler (the world is then
         // counted as rejected), never compiled into a table that returns only part of them
         let h = *rng.pick(&[2usize, 3, 10, 126, 127, 127, 128, 255, 256, 257, 300]);
+        let first = lex.entries.len();
         for _ in 0..h {
             add(rng, lex, &k);
+        }
+        if (126..=128).contains(&h) && rng.chance(2, 3) {
+            // all of them indexed: exactly 126 / 127 (the most the format holds) / 128 entries under one key
+            for e in lex.entries[first..].iter_mut() {
+                if e.left < 0 {
+                    e.left = 0;
+                }
+            }
         }
     }
     // prefix chain
@@ -101,7 +110,10 @@ pub fn run(ctx: &Ctx, rep: &mut Report) {
         }
         let mut rng = Rng::derive(ctx.seed, 0xC04, wi);
         rep.progress_idx(wi, "C04 world");
-        let dopts = DictOpts { splits: false, forms: false, synonyms: false, ..DictOpts::default() };
+        // every fourth stack: user lexicons that use system parts of speech only, re-encoded below in the first
+        // user-dictionary layout
+        let v1_stack = !small && wi % 4 == 1;
+        let dopts = DictOpts { splits: false, forms: false, synonyms: false, system_pos_user_layers: v1_stack, ..DictOpts::default() };
         let matrix = dictgen::gen_matrix(&mut rng, &dopts);
         let mut sys = dictgen::gen_system(&mut rng, &dopts, &matrix);
         // size classes: most worlds small, some with hundreds / thousands of keys, a few huge ones (thorough)
@@ -133,7 +145,48 @@ pub fn run(ctx: &Ctx, rep: &mut Report) {
                 continue;
             }
         };
+        let world = if v1_stack && !world.user_bytes.is_empty() {
+            let mut w = world;
+            let mut n_v1 = 0;
+            let v1: Vec<Vec<u8>> = w.user_bytes.iter().map(|b| match crate::mon_c12::to_v1(b) {
+                Some(x) => {
+                    n_v1 += 1;
+                    x
+                }
+                None => b.clone(),
+            }).collect();
+            if n_v1 > 0 {
+                let cfg = crate::env::config(&w.cfg_json, &w.res);
+                match guard(|| crate::env::load(&cfg, &w.sys_bytes, &v1, Place::Owned)) {
+                    Ok(Ok(d)) => {
+                        w.dict = d;
+                        w.user_bytes = v1;
+                        rep.count("stacks_with_version_1_user_dictionaries", 1);
+                    }
+                    Ok(Err(e)) => {
+                        rep.violation("load_error", "from_cfg_storage", &format!("the stack loads with version-3 user dictionaries but not when those without own POS are written in the version-1 layout: {:?}", e), "", json!({"world_index": wi}));
+                        continue;
+                    }
+                    Err(pn) => {
+                        rep.violation("load_panic", &pn.site, &format!("user dictionaries in the version-1 layout: {}", pn.msg), "", json!({"world_index": wi}));
+                        continue;
+                    }
+                }
+            }
+            w
+        } else {
+            world
+        };
         rep.count("worlds", 1);
+        {
+            let mut per_key: std::collections::HashMap<&str, usize> = Default::default();
+            for e in world.sys.entries.iter().filter(|e| e.indexed()) {
+                *per_key.entry(e.key.as_str()).or_default() += 1;
+            }
+            if per_key.values().any(|n| *n == 127) {
+                rep.count("worlds_with_a_key_of_exactly_127_entries", 1);
+            }
+        }
         rep.max("max_layers", 1 + world.users.len() as u64);
         if world.users.len() >= 15 {
             rep.violation("lookup_mismatch", "from_cfg_storage", "a stack of 15 user dictionaries was loaded: the 15th would get dictionary number 15, which marks out-of-vocabulary words", "", json!({"world_index": wi, "layers": world.users.len()}));
